@@ -178,6 +178,8 @@ def build_library(case):
     from qce_circuit.connectivity.intrf_channel_identifier import QubitIDObj
     d = case["d"]
     init = InitialStateContainer.from_ordered_list([InitialStateEnum.ZERO if i % 2 == 0 else InitialStateEnum.ONE for i in range(d)])
+    if case.get("states"):          # any of the six preparable states per data qubit
+        init = InitialStateContainer.from_ordered_list([InitialStateEnum[name] for name in case["states"]])
     desc = RepetitionCodeDescription.from_initial_state(init, qubit_refocusing=case.get("refocus", True))
     if case["ctor"] == "repcode":
         return cc.construct_repetition_code_circuit(qec_cycles=case["cycles"], description=desc, initial_state=init)
